@@ -379,4 +379,442 @@ theorem lane_half128 {w : Nat} (hw : 0 < w) (C : Nat) (hC : w * C = 128) (op : B
   rw [lane_map2 hw (by omega) _ _ _ _ hk, lane_setWidth w k _ hk1, lane_setWidth w k _ hk1, ← hC,
     lane_ushiftRight]
 
+/-! ### 64-bit max/min through `cmpgt_epi64` + `blendv_epi8` -/
+
+/-- flipping the sign bit turns the unsigned order into the signed one -/
+theorem toInt_flip64 (z : BitVec 64) :
+    (z ^^^ BitVec.intMin 64).toInt = (z.toNat : Int) - 9223372036854775808 := by
+  have h1 : (z ^^^ BitVec.intMin 64).msb = !z.msb := by
+    rw [BitVec.msb_xor, BitVec.msb_intMin]; simp
+  have h2 : (z ^^^ BitVec.intMin 64).setWidth 63 = z.setWidth 63 := by
+    apply BitVec.eq_of_getLsbD_eq
+    intro i hi
+    have : ¬ (i = 63) := by omega
+    simp [BitVec.getLsbD_intMin, hi, this]
+  have h3 := congrArg BitVec.toNat h2
+  rw [BitVec.toNat_setWidth, BitVec.toNat_setWidth] at h3
+  generalize z ^^^ BitVec.intMin 64 = a at h1 h3 ⊢
+  have hz := z.isLt
+  have ha := a.isLt
+  rw [BitVec.toInt_eq_msb_cond, h1]
+  rw [BitVec.msb_eq_decide, BitVec.msb_eq_decide] at h1
+  rw [BitVec.msb_eq_decide]
+  by_cases hm : 2 ^ (64 - 1) ≤ z.toNat
+  · simp only [hm, decide_true, Bool.not_true, decide_eq_false_iff_not] at h1 ⊢
+    simp only [Bool.false_eq_true, if_false]
+    omega
+  · simp only [hm, decide_false, Bool.not_false, decide_eq_true_eq] at h1 ⊢
+    simp only [if_true]
+    omega
+
+/-- `(x ^ MIN) <ₛ (y ^ MIN) ↔ x <ᵤ y`: the sign-bit trick of the unsigned 64-bit compare -/
+theorem slt_flip64 (x y : BitVec 64) :
+    BitVec.slt (x ^^^ BitVec.intMin 64) (y ^^^ BitVec.intMin 64) = BitVec.ult x y := by
+  unfold BitVec.slt BitVec.ult
+  rw [toInt_flip64, toInt_flip64]
+  by_cases h : x.toNat < y.toNat
+  · have : (x.toNat : Int) - 9223372036854775808 < (y.toNat : Int) - 9223372036854775808 := by omega
+    simp [h, this]
+  · have : ¬ ((x.toNat : Int) - 9223372036854775808 < (y.toNat : Int) - 9223372036854775808) := by omega
+    simp [h, this]
+
+theorem lane_xor {n : Nat} (w k : Nat) (x y : BitVec n) : lane w k (x ^^^ y) = lane w k x ^^^ lane w k y := by
+  apply BitVec.eq_of_getLsbD_eq
+  intro j hj
+  simp only [getLsbD_lane, BitVec.getLsbD_xor, hj, decide_true, Bool.true_and]
+
+theorem lane_and {n : Nat} (w k : Nat) (x y : BitVec n) : lane w k (x &&& y) = lane w k x &&& lane w k y := by
+  apply BitVec.eq_of_getLsbD_eq
+  intro j hj
+  simp only [getLsbD_lane, BitVec.getLsbD_and, hj, decide_true, Bool.true_and]
+
+/-- two 64-bit values with equal bytes are equal -/
+theorem eq_of_lanes8_64 (x y : BitVec 64) (h : ∀ i, i < 8 → lane 8 i x = lane 8 i y) : x = y := by
+  apply BitVec.eq_of_getLsbD_eq
+  intro j hj
+  have hq : j / 8 < 8 := by omega
+  have hm : j % 8 < 8 := by omega
+  have h1 := congrArg (fun v => v.getLsbD (j % 8)) (h _ hq)
+  have h2 : 8 * (j / 8) + j % 8 = j := by omega
+  simp only [getLsbD_lane, hm, decide_true, Bool.true_and, h2] at h1
+  exact h1
+
+/-- byte `i` of the 64-bit lane `k` is byte `8k+i` of the register -/
+theorem lane8_of_lane64 {n : Nat} (r : BitVec n) (k i : Nat) (hi : i < 8) :
+    lane 8 i (lane 64 k r) = lane 8 (8 * k + i) r := (lane_lane 8 8 k i hi r).symm
+
+/-- a byte blend whose mask is all-ones or zero on a 64-bit lane selects that whole lane -/
+theorem blendv64_lane {n : Nat} (L : Nat) (hn : 64 * L ≤ n) (a b mask : BitVec n) (c : Bool) (k : Nat)
+    (hk : k < L) (hmask : lane 64 k mask = if c then BitVec.allOnes 64 else 0) :
+    lane 64 k (X86.map3 8 (8 * L) (fun x y m => if m.msb then y else x) a b mask)
+      = if c then lane 64 k b else lane 64 k a := by
+  apply eq_of_lanes8_64
+  intro i hi
+  rw [lane8_of_lane64 _ k i hi, lane_map3 (by decide) (by omega) _ _ _ _ _ (by omega : 8 * k + i < 8 * L),
+    ← lane8_of_lane64 mask k i hi, hmask, ← lane8_of_lane64 a k i hi, ← lane8_of_lane64 b k i hi]
+  have h1 : ∀ i, i < 8 → (lane 8 i (BitVec.allOnes 64)).msb = true := by decide
+  have h0 : ∀ i, i < 8 → (lane 8 i (0 : BitVec 64)).msb = false := by decide
+  cases c
+  · simp only [Bool.false_eq_true, ↓reduceIte, h0 i hi]
+  · simp only [↓reduceIte, h1 i hi]
+
+/-- the lane function of `cmpgt_epi64` -/
+def cmpgt64 (x y : BitVec 64) : BitVec 64 := if BitVec.slt y x then BitVec.allOnes 64 else 0
+
+/-- `blendv_epi8(a, b, cmpgt_epi64(p, q))`: per 64-bit lane, `b` where `p >ₛ q`, else `a` -/
+theorem blendv_cmpgt64_lane {n : Nat} (L : Nat) (hn : 64 * L ≤ n) (a b p q : BitVec n) (k : Nat) (hk : k < L) :
+    lane 64 k (X86.map3 8 (8 * L) (fun x y m => if m.msb then y else x) a b
+        (X86.map2 64 L (fun x y => if BitVec.slt y x then BitVec.allOnes 64 else 0) p q))
+      = if BitVec.slt (lane 64 k q) (lane 64 k p) then lane 64 k b else lane 64 k a :=
+  blendv64_lane L hn a b _ (BitVec.slt (lane 64 k q) (lane 64 k p)) k hk
+    (lane_map2 (by decide) hn _ p q k hk)
+
+section
+variable {n : Nat} (L : Nat) (hn : 64 * L ≤ n) (p q : BitVec n) (k : Nat) (hk : k < L)
+include hn hk
+
+/-- AVX2 signed 64-bit max: `blendv(l2, l1, cmpgt(l1, l2))` -/
+theorem smax64_lane :
+    lane 64 k (X86.map3 8 (8 * L) (fun x y m => if m.msb then y else x) q p
+        (X86.map2 64 L (fun x y => if BitVec.slt y x then BitVec.allOnes 64 else 0) p q))
+      = IntPrim.smax (lane 64 k p) (lane 64 k q) := by
+  rw [blendv_cmpgt64_lane L hn q p p q k hk, (smax_monoid (by decide : 0 < 64)).comm]
+  rfl
+
+/-- AVX2 signed 64-bit min: `blendv(l1, l2, cmpgt(l1, l2))` -/
+theorem smin64_lane :
+    lane 64 k (X86.map3 8 (8 * L) (fun x y m => if m.msb then y else x) p q
+        (X86.map2 64 L (fun x y => if BitVec.slt y x then BitVec.allOnes 64 else 0) p q))
+      = IntPrim.smin (lane 64 k p) (lane 64 k q) := by
+  rw [blendv_cmpgt64_lane L hn p q p q k hk]
+  rfl
+
+theorem lane_flip :
+    lane 64 k (p ^^^ X86.bcast 64 L (BitVec.ofNat 64 0x8000000000000000)) = lane 64 k p ^^^ BitVec.intMin 64 := by
+  rw [lane_xor, lane_bcast (by decide) hn _ k hk]
+  rfl
+
+/-- AVX2 unsigned 64-bit max: compare after flipping the sign bits -/
+theorem umax64_lane :
+    lane 64 k (X86.map3 8 (8 * L) (fun x y m => if m.msb then y else x) q p
+        (X86.map2 64 L (fun x y => if BitVec.slt y x then BitVec.allOnes 64 else 0)
+          (p ^^^ X86.bcast 64 L (BitVec.ofNat 64 0x8000000000000000))
+          (q ^^^ X86.bcast 64 L (BitVec.ofNat 64 0x8000000000000000))))
+      = IntPrim.umax (lane 64 k p) (lane 64 k q) := by
+  rw [blendv_cmpgt64_lane L hn q p _ _ k hk, lane_flip L hn p k hk, lane_flip L hn q k hk, slt_flip64,
+    (umax_monoid 64).comm]
+  rfl
+
+/-- AVX2 unsigned 64-bit min -/
+theorem umin64_lane :
+    lane 64 k (X86.map3 8 (8 * L) (fun x y m => if m.msb then y else x) p q
+        (X86.map2 64 L (fun x y => if BitVec.slt y x then BitVec.allOnes 64 else 0)
+          (p ^^^ X86.bcast 64 L (BitVec.ofNat 64 0x8000000000000000))
+          (q ^^^ X86.bcast 64 L (BitVec.ofNat 64 0x8000000000000000))))
+      = IntPrim.umin (lane 64 k p) (lane 64 k q) := by
+  rw [blendv_cmpgt64_lane L hn p q _ _ k hk, lane_flip L hn p k hk, lane_flip L hn q k hk, slt_flip64]
+  rfl
+
+end
+
+/-! ### 64-bit multiply through 32-bit partial products -/
+/-- `(a + T·b)(c + T·d)` expanded -/
+theorem mul_split (a b c d T : Nat) :
+    (a + T * b) * (c + T * d) = a * c + T * (a * d) + T * (b * c) + T * T * (b * d) := by
+  rw [Nat.add_mul, Nat.mul_add, Nat.mul_add, Nat.mul_left_comm a T d, Nat.mul_assoc T b c,
+    Nat.mul_mul_mul_comm T b T d]
+  omega
+
+theorem toNat_lane32_0 (x : BitVec 64) : (lane 32 0 x).toNat = x.toNat % 4294967296 := by
+  unfold lane
+  rw [BitVec.toNat_setWidth, BitVec.toNat_ushiftRight]
+  rfl
+
+theorem toNat_lane32_1 (x : BitVec 64) : (lane 32 1 x).toNat = x.toNat / 4294967296 := by
+  unfold lane
+  rw [BitVec.toNat_setWidth, BitVec.toNat_ushiftRight, Nat.shiftRight_eq_div_pow]
+  have := x.isLt
+  omega
+
+theorem toNat_and_low32 (x : BitVec 64) : (x &&& 0xFFFFFFFF#64).toNat = x.toNat % 4294967296 := by
+  rw [BitVec.toNat_and]
+  exact Nat.and_two_pow_sub_one_eq_mod x.toNat 32
+
+theorem and_high32 (S : BitVec 64) : S &&& 0xFFFFFFFF00000000#64 = (S >>> 32) <<< 32 := by
+  have hm : 0xFFFFFFFF00000000#64 = BitVec.allOnes 64 <<< 32 := by decide
+  rw [hm]
+  apply BitVec.eq_of_getLsbD_eq
+  intro i hi
+  rw [BitVec.getLsbD_and, BitVec.getLsbD_shiftLeft, BitVec.getLsbD_shiftLeft, BitVec.getLsbD_ushiftRight,
+    BitVec.getLsbD_allOnes]
+  by_cases h : i < 32
+  · simp [h]
+  · have h2 : 32 + (i - 32) = i := by omega
+    have h3 : i - 32 < 64 := by omega
+    simp [h, hi, h2, h3]
+
+theorem toNat_and_high32 (S : BitVec 64) :
+    (S &&& 0xFFFFFFFF00000000#64).toNat = (lane 32 1 S).toNat * 4294967296 := by
+  rw [and_high32, toNat_lane32_1, BitVec.toNat_shiftLeft, BitVec.toNat_ushiftRight, Nat.shiftRight_eq_div_pow,
+    Nat.shiftLeft_eq]
+  have := S.isLt
+  omega
+
+
+/-- **the schoolbook identity behind the 64-bit multiply**: low×low plus the (wrapping 32-bit) sum of the
+cross products shifted into the high half is the wrapping 64-bit product -/
+theorem mul64_parts (x y S : BitVec 64)
+    (hS : lane 32 1 S = lane 32 0 x * lane 32 1 y + lane 32 1 x * lane 32 0 y) :
+    (x &&& 0xFFFFFFFF#64) * (y &&& 0xFFFFFFFF#64) + (S &&& 0xFFFFFFFF00000000#64) = x * y := by
+  apply BitVec.eq_of_toNat_eq
+  have h := congrArg BitVec.toNat hS
+  rw [BitVec.toNat_add, BitVec.toNat_mul, BitVec.toNat_mul, toNat_lane32_0 x, toNat_lane32_1 y, toNat_lane32_0 y,
+    toNat_lane32_1 x] at h
+  rw [BitVec.toNat_add, BitVec.toNat_mul, BitVec.toNat_mul, toNat_and_low32, toNat_and_low32,
+    toNat_and_high32, h]
+  have hx := x.isLt
+  have hy := y.isLt
+  generalize x.toNat = X at *
+  generalize y.toNat = Y at *
+  have ex : X = X % 4294967296 + 4294967296 * (X / 4294967296) := by omega
+  have ey : Y = Y % 4294967296 + 4294967296 * (Y / 4294967296) := by omega
+  have hxy : X * Y = (X % 4294967296 + 4294967296 * (X / 4294967296))
+      * (Y % 4294967296 + 4294967296 * (Y / 4294967296)) := by rw [← ex, ← ey]
+  rw [mul_split] at hxy
+  rw [hxy]
+  generalize X % 4294967296 * (Y % 4294967296) = P
+  generalize X % 4294967296 * (Y / 4294967296) = Q
+  generalize X / 4294967296 * (Y % 4294967296) = R
+  generalize X / 4294967296 * (Y / 4294967296) = Z
+  omega
+
+/-- the high half of `v <<< 32` is the low half of `v` -/
+theorem shl32_high (v : BitVec 64) : lane 32 1 (v <<< 32) = lane 32 0 v := by
+  apply BitVec.eq_of_getLsbD_eq
+  intro j hj
+  rw [getLsbD_lane, getLsbD_lane, BitVec.getLsbD_shiftLeft]
+  have h1 : 32 + j < 64 := by omega
+  simp [hj, h1]
+
+/-- 32-bit half `i` of the 64-bit lane `j` is the 32-bit lane `2j+i` of the register -/
+theorem lane32_of_lane64 {n : Nat} (r : BitVec n) (j i : Nat) (hi : i < 2) :
+    lane 32 i (lane 64 j r) = lane 32 (2 * j + i) r := (lane_lane 32 2 j i hi r).symm
+
+/-- `shuffle_epi32::<_MM_SHUFFLE(2,3,0,1)>` swaps the two 32-bit halves of every 64-bit lane -/
+theorem shuffle177_idx : ∀ k, k < 8 →
+    4 * (k / 4) + X86.bits2 177 (2 * (k % 4)) = if k % 2 = 0 then k + 1 else k - 1 := by decide
+
+/-- the AVX2 64-bit multiply network of `impl_avx2.rs` (three 32-bit partial products) -/
+def mul64Net256 (E : Env) (imm : Nat) (l1 l2 : BitVec 256) : BitVec 256 :=
+  X86._mm256_add_epi64 E (X86._mm256_mul_epu32 E l1 l2)
+    (X86._mm256_and_si256 E
+      (X86._mm256_add_epi32 E
+        (X86._mm256_slli_epi64 E 32 (X86._mm256_mullo_epi32 E l1 (X86._mm256_shuffle_epi32 E imm l2)))
+        (X86._mm256_mullo_epi32 E l1 (X86._mm256_shuffle_epi32 E imm l2)))
+      (X86._mm256_set1_epi64x E (BitVec.ofNat 64 0xFFFFFFFF00000000)))
+
+/-- 32-bit lanes of the cross product `mullo_epi32(l1, swap(l2))` -/
+theorem lane_cross256 (E : Env) (l1 l2 : BitVec 256) (k : Nat) (hk : k < 8) :
+    lane 32 k (X86._mm256_mullo_epi32 E l1 (X86._mm256_shuffle_epi32 E 177 l2))
+      = lane 32 k l1 * lane 32 (if k % 2 = 0 then k + 1 else k - 1) l2 := by
+  unfold X86._mm256_mullo_epi32 X86._mm256_shuffle_epi32
+  rw [lane_map2 (by decide) (by decide) _ _ _ k hk, lane_fromLanes 32 (by decide) 8 _ k hk (by decide),
+    shuffle177_idx k hk]
+
+/-- **the AVX2 64-bit multiply network is the wrapping 64-bit product in every lane** -/
+theorem mul64Net256_lane (E : Env) (l1 l2 : BitVec 256) (j : Nat) (hj : j < 4) :
+    lane 64 j (mul64Net256 E 177 l1 l2) = lane 64 j l1 * lane 64 j l2 := by
+  unfold mul64Net256 X86._mm256_add_epi64 X86._mm256_mul_epu32 X86._mm256_and_si256 X86._mm256_set1_epi64x
+  rw [lane_map2 (by decide) (by decide) _ _ _ j hj, lane_map2 (by decide) (by decide) _ _ _ j hj, lane_and,
+    lane_bcast (by decide) (by decide) _ j hj]
+  apply mul64_parts
+  have h0 : 2 * j < 8 := by omega
+  have h1 : 2 * j + 1 < 8 := by omega
+  have m0 : (2 * j) % 2 = 0 := by omega
+  have m1 : ¬ ((2 * j + 1) % 2 = 0) := by omega
+  rw [lane32_of_lane64 _ j 1 (by decide)]
+  unfold X86._mm256_add_epi32 X86._mm256_slli_epi64
+  rw [lane_map2 (by decide) (by decide) _ _ _ _ h1, ← lane32_of_lane64 _ j 1 (by decide),
+    lane_map1 (by decide) (by decide) _ _ j hj, shl32_high, lane32_of_lane64 _ j 0 (by decide),
+    Nat.add_zero, lane_cross256 E l1 l2 _ h0, lane_cross256 E l1 l2 _ h1, if_pos m0, if_neg m1,
+    Nat.add_sub_cancel, ← lane32_of_lane64 l1 j 1 (by decide), ← lane32_of_lane64 l2 j 1 (by decide)]
+  rw [← Nat.add_zero (2 * j), ← lane32_of_lane64 l1 j 0 (by decide), ← lane32_of_lane64 l2 j 0 (by decide)]
+
+/-! ### horizontal folds: from the code shapes to the pure fold functions -/
+
+theorem lane_hi128 {w : Nat} (C : Nat) (hC : w * C = 128) (r : BitVec 256) (k : Nat) (hk : k < C) :
+    lane w k ((r >>> 128).setWidth 128 : BitVec 128) = lane w (C + k) r := by
+  have hk1 : w * (k + 1) ≤ 128 := by rw [← hC]; exact Nat.mul_le_mul_left w hk
+  rw [lane_setWidth w k _ hk1, ← hC, lane_ushiftRight]
+
+theorem lane_lo128 {w : Nat} (C : Nat) (hC : w * C = 128) (r : BitVec 256) (k : Nat) (hk : k < C) :
+    lane w k (r.setWidth 128 : BitVec 128) = lane w k r := by
+  have hk1 : w * (k + 1) ≤ 128 := by rw [← hC]; exact Nat.mul_le_mul_left w hk
+  rw [lane_setWidth w k _ hk1]
+
+/-- AVX2 8/16-bit folds: `op(hi, lo)`, then the 4-accumulator loop over the `4·n` lanes -/
+theorem avx2_fold4 {w : Nat} (hw : 0 < w) (n : Nat) (hC : w * (4 * n) = 128) (op : BitVec w → BitVec w → BitVec w)
+    (e : BitVec w) (fuel : Nat) (hfuel : n < fuel) (r : BitVec 256) :
+    fold4Loop fuel op e (4 * n) (unpackLanes w (4 * n) (half128 w (4 * n) op r))
+      = pure (hfoldHalf4 op e (4 * n) n (xlanes w r)) := by
+  rw [fold4Loop_eq fuel op e n _ rfl hfuel]
+  unfold hfoldHalf4
+  rw [hfold4_congr n _ (fun k => op (xlanes w r (4 * n + k)) (xlanes w r k))]
+  intro k hk
+  exact lane_half128 hw (4 * n) hC op r k hk
+
+/-- AVX2 32-bit folds: `op(hi, lo)`, then `(g0 ⊕ g1) ⊕ (g2 ⊕ g3)` -/
+theorem avx2_foldQ (op : BitVec 32 → BitVec 32 → BitVec 32) (r : BitVec 256) :
+    op (op (lane 32 0 (half128 32 4 op r)) (lane 32 1 (half128 32 4 op r)))
+        (op (lane 32 2 (half128 32 4 op r)) (lane 32 3 (half128 32 4 op r)))
+      = hfoldHalfQ op (xlanes 32 r) := by
+  rw [lane_half128 (by decide) 4 (by decide) op r 0 (by decide),
+    lane_half128 (by decide) 4 (by decide) op r 1 (by decide),
+    lane_half128 (by decide) 4 (by decide) op r 2 (by decide),
+    lane_half128 (by decide) 4 (by decide) op r 3 (by decide)]
+  rfl
+
+/-- AVX2 64-bit sum: `op(hi, lo)`, then `g0 ⊕ g1` -/
+theorem avx2_foldD (op : BitVec 64 → BitVec 64 → BitVec 64) (r : BitVec 256) :
+    op (lane 64 0 (half128 64 2 op r)) (lane 64 1 (half128 64 2 op r)) = hfoldHalfD op (xlanes 64 r) := by
+  rw [lane_half128 (by decide) 2 (by decide) op r 0 (by decide),
+    lane_half128 (by decide) 2 (by decide) op r 1 (by decide)]
+  rfl
+
+section
+variable (r : BitVec 256)
+
+/-- AVX2 `i64` `max_to_value`: `blendv(lo, hi, cmpgt(hi, lo))`, then the scalar max of the two lanes -/
+theorem avx2_smaxD :
+    IntPrim.smax
+        (lane 64 0 (X86.map3 8 16 (fun x y m => if m.msb then y else x) (r.setWidth 128 : BitVec 128)
+          ((r >>> 128).setWidth 128) (X86.map2 64 2 (fun x y => if BitVec.slt y x then BitVec.allOnes 64 else 0)
+            ((r >>> 128).setWidth 128) (r.setWidth 128))))
+        (lane 64 1 (X86.map3 8 16 (fun x y m => if m.msb then y else x) (r.setWidth 128 : BitVec 128)
+          ((r >>> 128).setWidth 128) (X86.map2 64 2 (fun x y => if BitVec.slt y x then BitVec.allOnes 64 else 0)
+            ((r >>> 128).setWidth 128) (r.setWidth 128))))
+      = hfoldHalfD IntPrim.smax (xlanes 64 r) := by
+  rw [smax64_lane 2 (by decide) _ _ 0 (by decide), smax64_lane 2 (by decide) _ _ 1 (by decide),
+    lane_hi128 2 (by decide) r 0 (by decide), lane_hi128 2 (by decide) r 1 (by decide),
+    lane_lo128 2 (by decide) r 0 (by decide), lane_lo128 2 (by decide) r 1 (by decide)]
+  rfl
+
+/-- AVX2 `i64` `min_to_value` -/
+theorem avx2_sminD :
+    IntPrim.smin
+        (lane 64 0 (X86.map3 8 16 (fun x y m => if m.msb then y else x) ((r >>> 128).setWidth 128 : BitVec 128)
+          (r.setWidth 128) (X86.map2 64 2 (fun x y => if BitVec.slt y x then BitVec.allOnes 64 else 0)
+            ((r >>> 128).setWidth 128) (r.setWidth 128))))
+        (lane 64 1 (X86.map3 8 16 (fun x y m => if m.msb then y else x) ((r >>> 128).setWidth 128 : BitVec 128)
+          (r.setWidth 128) (X86.map2 64 2 (fun x y => if BitVec.slt y x then BitVec.allOnes 64 else 0)
+            ((r >>> 128).setWidth 128) (r.setWidth 128))))
+      = hfoldHalfD IntPrim.smin (xlanes 64 r) := by
+  rw [smin64_lane 2 (by decide) _ _ 0 (by decide), smin64_lane 2 (by decide) _ _ 1 (by decide),
+    lane_hi128 2 (by decide) r 0 (by decide), lane_hi128 2 (by decide) r 1 (by decide),
+    lane_lo128 2 (by decide) r 0 (by decide), lane_lo128 2 (by decide) r 1 (by decide)]
+  rfl
+
+/-- AVX2 `u64` `max_to_value` -/
+theorem avx2_umaxD :
+    IntPrim.umax
+        (lane 64 0 (X86.map3 8 16 (fun x y m => if m.msb then y else x) (r.setWidth 128 : BitVec 128)
+          ((r >>> 128).setWidth 128) (X86.map2 64 2 (fun x y => if BitVec.slt y x then BitVec.allOnes 64 else 0)
+            (((r >>> 128).setWidth 128) ^^^ X86.bcast 64 2 (BitVec.ofNat 64 0x8000000000000000))
+            ((r.setWidth 128) ^^^ X86.bcast 64 2 (BitVec.ofNat 64 0x8000000000000000)))))
+        (lane 64 1 (X86.map3 8 16 (fun x y m => if m.msb then y else x) (r.setWidth 128 : BitVec 128)
+          ((r >>> 128).setWidth 128) (X86.map2 64 2 (fun x y => if BitVec.slt y x then BitVec.allOnes 64 else 0)
+            (((r >>> 128).setWidth 128) ^^^ X86.bcast 64 2 (BitVec.ofNat 64 0x8000000000000000))
+            ((r.setWidth 128) ^^^ X86.bcast 64 2 (BitVec.ofNat 64 0x8000000000000000)))))
+      = hfoldHalfD IntPrim.umax (xlanes 64 r) := by
+  rw [umax64_lane 2 (by decide) _ _ 0 (by decide), umax64_lane 2 (by decide) _ _ 1 (by decide),
+    lane_hi128 2 (by decide) r 0 (by decide), lane_hi128 2 (by decide) r 1 (by decide),
+    lane_lo128 2 (by decide) r 0 (by decide), lane_lo128 2 (by decide) r 1 (by decide)]
+  rfl
+
+/-- AVX2 `u64` `min_to_value` -/
+theorem avx2_uminD :
+    IntPrim.umin
+        (lane 64 0 (X86.map3 8 16 (fun x y m => if m.msb then y else x) ((r >>> 128).setWidth 128 : BitVec 128)
+          (r.setWidth 128) (X86.map2 64 2 (fun x y => if BitVec.slt y x then BitVec.allOnes 64 else 0)
+            (((r >>> 128).setWidth 128) ^^^ X86.bcast 64 2 (BitVec.ofNat 64 0x8000000000000000))
+            ((r.setWidth 128) ^^^ X86.bcast 64 2 (BitVec.ofNat 64 0x8000000000000000)))))
+        (lane 64 1 (X86.map3 8 16 (fun x y m => if m.msb then y else x) ((r >>> 128).setWidth 128 : BitVec 128)
+          (r.setWidth 128) (X86.map2 64 2 (fun x y => if BitVec.slt y x then BitVec.allOnes 64 else 0)
+            (((r >>> 128).setWidth 128) ^^^ X86.bcast 64 2 (BitVec.ofNat 64 0x8000000000000000))
+            ((r.setWidth 128) ^^^ X86.bcast 64 2 (BitVec.ofNat 64 0x8000000000000000)))))
+      = hfoldHalfD IntPrim.umin (xlanes 64 r) := by
+  rw [umin64_lane 2 (by decide) _ _ 0 (by decide), umin64_lane 2 (by decide) _ _ 1 (by decide),
+    lane_hi128 2 (by decide) r 0 (by decide), lane_hi128 2 (by decide) r 1 (by decide),
+    lane_lo128 2 (by decide) r 0 (by decide), lane_lo128 2 (by decide) r 1 (by decide)]
+  rfl
+
+end
+
+/-! AVX-512 8/16-bit: the upper 256 bits are brought down with `shuffle_i64x2::<_MM_SHUFFLE(1,0,3,2)>` -/
+
+/-- `shuffle_i64x2::<0x4E>(r, r)` swaps the 256-bit halves -/
+theorem lane_swap512 (E : Env) {w : Nat} (m : Nat) (hm : w * m = 128) (hm0 : 0 < m) (r : BitVec 512) (k : Nat)
+    (hk : k < 2 * m) : lane w k (X86._mm512_shuffle_i64x2 E 78 r r) = lane w (2 * m + k) r := by
+  have hq : k / m < 2 := (Nat.div_lt_iff_lt_mul hm0).2 hk
+  have hb : X86.bits2 78 (2 * (k / m)) = k / m + 2 := by
+    generalize k / m = q at hq
+    have : q = 0 ∨ q = 1 := by omega
+    rcases this with h | h <;> rw [h] <;> decide
+  have hidx : m * (k / m + 2) + k % m = 2 * m + k := by
+    have := Nat.div_add_mod k m
+    rw [Nat.mul_add]; omega
+  rw [lane_div_mod w m k hm0, ← hidx, lane_lane w m (k / m + 2) (k % m) (Nat.mod_lt _ hm0), hm]
+  unfold X86._mm512_shuffle_i64x2
+  rw [lane_fromLanes 128 (by decide) 4 _ (k / m) (by omega) (by decide), if_pos hq, hb]
+
+/-- `op(cast256(swap(r)), cast256(r))` lane-wise -/
+def half256 (E : Env) (imm : Nat) (w C : Nat) (op : BitVec w → BitVec w → BitVec w) (r : BitVec 512) : BitVec 256 :=
+  X86.map2 w C op ((X86._mm512_shuffle_i64x2 E imm r r).setWidth 256) (r.setWidth 256)
+
+theorem lane_half256 (E : Env) {w : Nat} (hw : 0 < w) (m : Nat) (hm : w * m = 128) (hm0 : 0 < m)
+    (op : BitVec w → BitVec w → BitVec w) (r : BitVec 512) (k : Nat) (hk : k < 2 * m) :
+    lane w k (half256 E 78 w (2 * m) op r) = op (lane w (2 * m + k) r) (lane w k r) := by
+  have hk1 : w * (k + 1) ≤ 256 := by
+    have : w * (k + 1) ≤ w * (2 * m) := Nat.mul_le_mul_left w hk
+    rw [Nat.mul_left_comm, hm] at this; omega
+  have hn : w * (2 * m) ≤ 256 := by rw [Nat.mul_left_comm, hm]; decide
+  unfold half256
+  rw [lane_map2 hw hn _ _ _ _ hk, lane_setWidth w k _ hk1, lane_setWidth w k _ hk1,
+    lane_swap512 E m hm hm0 r k hk]
+
+/-- AVX-512 8/16-bit folds: 256-bit halves combined, then the AVX2 fold -/
+theorem avx512_fold4 (E : Env) {w : Nat} (hw : 0 < w) (n : Nat) (hn0 : 0 < n) (hC : w * (4 * n) = 128)
+    (op : BitVec w → BitVec w → BitVec w) (e : BitVec w) (fuel : Nat) (hfuel : n < fuel) (imm : Nat)
+    (himm : imm = 78) (r : BitVec 512) :
+    (fold4Loop fuel op e (4 * n) (unpackLanes w (4 * n) (half128 w (4 * n) op (half256 E imm w (2 * (4 * n)) op r)))
+        >>= fun t => pure t)
+      = pure (hfoldHalf512 op e (4 * n) n (xlanes w r)) := by
+  subst himm
+  rw [avx2_fold4 hw n hC op e fuel hfuel, pure_bind]
+  unfold hfoldHalf512 hfoldHalf4
+  congr 1
+  apply hfold4_congr
+  intro k hk
+  unfold xlanes
+  rw [lane_half256 E hw (4 * n) hC (by omega) op r k (by omega),
+    lane_half256 E hw (4 * n) hC (by omega) op r (4 * n + k) (by omega)]
+  have e1 : 2 * (4 * n) + (4 * n + k) = 4 * n + 4 * n + (4 * n + k) := by omega
+  have e2 : 2 * (4 * n) + k = 4 * n + 4 * n + k := by omega
+  rw [e1, e2]
+
+/-! packaging -/
+
+/-- a `FoldFaithful` record from a lane-wise total operation with the default roll-up and a horizontal
+fold equation -/
+theorem foldFaithful_of {T Reg : Type} {L : Nat} {lanes : Reg → Nat → T} {f : T → T → T}
+    {op : Reg → Reg → Exec Reg} {opD : DenseLane Reg → DenseLane Reg → Exec (DenseLane Reg)}
+    (LW : Lanewise2 L lanes f (fun _ => True) op opD) (hfold : (Nat → T) → T)
+    (toReg : DenseLane Reg → Exec Reg) (toValue : Reg → Exec T) (hreg : toReg = rollup8 op)
+    (hval : ∀ r, toValue r = pure (hfold (lanes r))) :
+    FoldFaithful L lanes f hfold toReg toValue := by
+  refine ⟨?_, hval⟩
+  intro d
+  rw [hreg]
+  exact rollup8_lanewise (fun x y => LW.single x y (fun _ _ => trivial)) d
+
 end Cfavml
